@@ -478,10 +478,15 @@ def task_e(t):
                 if i % nsl != sl:
                     continue
                 ref = c_reference(ops, seed, pre)
+                longest = len(ops) == maxlen and len(canames) < len(E_COMMITARGS)
                 for limit in limits:
                     if limit >= len(ops) + 1:
                         continue        # never flushes before close(): Part C's territory
-                    for caname in canames:
+                    if longest and (limit != 2 or prename == "empty"):
+                        # quick tier: the longest lists only where document numbers can
+                        # move under the open writer (a flush that purges deletions)
+                        continue
+                    for caname in (("optimize",) if longest else canames):
                         acc.count("evaluations")
                         acc.count("partE_cases")
                         case = {"part": "E", "ops": ops, "pre": prename, "limit": limit, "commitargs": caname, "seed": seed}
@@ -693,8 +698,8 @@ def run_async(cfg, prefix):
             # committed when the AsyncWriter's transaction finally runs)
             if cfg.get("async_delete"):
                 aw.delete_by_term("key", cfg["async_delete"])
-            aw.add_document(key=u"x", text=c02.TEXTS["a"], n=1, tag=u"a t")
-            aw.add_document(key=u"y", text=c02.TEXTS["b"], n=2, tag=u"b t")
+            aw.add_document(**{"key": u"x", "text": c02.TEXTS["a"], c02.NF: 1, "tag": u"a t"})
+            aw.add_document(**{"key": u"y", "text": c02.TEXTS["b"], c02.NF: 2, "tag": u"b t"})
             aw.commit()
 
         sch.spawn("M", main)
@@ -781,7 +786,7 @@ def run_buffered(cfg, prefix):
             def body():
                 for k in keys:
                     started[k] = True
-                    bw.add_document(key=k, text=c02.TEXTS["a"], n=1, tag=u"a t")
+                    bw.add_document(**{"key": k, "text": c02.TEXTS["a"], c02.NF: 1, "tag": u"a t"})
                     done[k] = True
             return body
 
@@ -968,7 +973,7 @@ def run(ctx):
                 "a BufferedWriter that stays open across flushes: every operation list of length <= %d over {add, update, delete} x 2 keys "
                 "x limit %s x commitargs {optimize, default; thorough also merge=False} x start states {empty, one segment with a deleted document, "
                 "two segments with deletions}, the writer's own searcher after every operation and the index after close() against "
-                "the plain-writer reference; Part B: AsyncWriter vs a "
+                "the plain-writer reference (quick tier: lists of the maximal length only with limit 2, optimizing flushes and a start state with deletions); Part B: AsyncWriter vs a "
                 "lock-holding plain writer and BufferedWriter shared by two adders, an observer and its timer, every "
                 "schedule with <= B preemptions (storage/lock/sleep points; line-level points inside BufferedWriter); "
                 "states/transitions count Part B scheduling decisions/steps; evaluations count all parts"
